@@ -149,6 +149,73 @@ def r19c(ctx, rep):
                      "10^5 long costs 10^5 nested marker frames" % (v, i, ", ".join(sorted(got)) or "nothing"), [fn.span])
 
 
+def r19h(ctx, rep, rule="R19h"):
+    from .. import shapes
+    facts = ctx["facts"]
+    GAC = "marwood::vm::heap::Heap::get_as_cell"
+    rep.rule(rule, "the datum conversion stays iterative along cdr: Heap::get_as_cell walks the spine of a list in a loop; a "
+             "recursive call of it may receive the cdr of a pair (as_cdr / the second Pair field) only where an is_pair test of "
+             "that value failed (the tail of an improper list). Recursing on the cdr of every pair costs one native frame per "
+             "list element — flat lists of ordinary length then overflow behind display, write, error and every result.")
+    f = need(rep, rule, facts, GAC)
+    if f is None:
+        return
+    if not f.back_edges():
+        rep.fail(rule, rule + "|get_as_cell|loop", "Heap::get_as_cell no longer contains a loop over the cdr chain", [f.span])
+    else:
+        rep.ok(rule, rule + "|get_as_cell|loop", "Heap::get_as_cell walks the cdr chain in a loop", [f.span])
+    k = 0
+    for bb, t in f.calls():
+        if callee(t) != GAC or len(t["args"]) < 2:
+            continue
+        sh = shapes.shape(f, t["args"][1], 6)
+        if not ("as_cdr(" in sh or ".Pair.1" in sh):
+            continue
+        k += 1
+        key = "%s|get_as_cell|cdr-recursion#%d" % (rule, k)
+        ok = any(g.startswith("vm::vcell::VCell::is_pair(") and g.endswith("=F") and ("as_cdr(" in g or ".Pair.1" in g)
+                 for g in shapes.guard_shapes(f, bb, None, 5))
+        (rep.ok if ok else rep.fail)(
+            rule, key, "get_as_cell recurses on a cdr only after is_pair failed for it (improper tail)" if ok else
+            "get_as_cell calls itself on the cdr of a pair with no failed is_pair test of that value: the native depth follows "
+            "the length of the list", [t["loc"]])
+
+
+def r19i(ctx, rep, rule="R19i"):
+    from .. import shapes
+    facts = ctx["facts"]
+    rep.rule(rule, "premise of the reviewed retry-after-grow recursions (Stack::push, Heap::alloc call themselves once after "
+             "grow()): grow always makes room — its Vec::resize is executed on every path through grow (it dominates every "
+             "return) and the new length is not capped (no min / clamp / saturating step in its computation). With a cap, a "
+             "full stack at the cap makes push call itself without progress until the native stack is exhausted.")
+    for owner, grow in (("marwood::vm::stack::Stack::push", "marwood::vm::stack::Stack::grow"),
+                        ("marwood::vm::heap::Heap::alloc", "marwood::vm::heap::Heap::grow")):
+        o = need(rep, rule, facts, owner)
+        g = need(rep, rule, facts, grow)
+        if o is None or g is None:
+            continue
+        key = "%s|%s" % (rule, short_path(grow))
+        if not any(callee(t) == grow for bb, t in o.calls()):
+            rep.anchor_lost(rule, "%s no longer calls %s" % (short_path(owner), short_path(grow)))
+            continue
+        rs = [(bb, t) for bb, t in g.calls() if (callee(t) or "").endswith("Vec::<T, A>::resize")]
+        if not rs:
+            rep.anchor_lost(rule, "%s has no Vec::resize" % short_path(grow))
+            continue
+        rets = g.return_blocks()
+        uncond = [(bb, t) for bb, t in rs if all(g.dominates(bb, r) for r in rets)]
+        capped = [shapes.shape(g, t["args"][1], 6) for bb, t in rs
+                  if re.search(r"::min\(|::clamp\(|saturating_|::min_by", shapes.shape(g, t["args"][1], 6))]
+        if not uncond:
+            rep.fail(rule, key, "%s does not resize on every path: when it returns without growing, the retry in %s recurses "
+                     "without progress until the native stack overflows" % (short_path(grow), short_path(owner)), [g.span])
+        elif capped:
+            rep.fail(rule, key, "%s caps the new length (%s): at the cap it no longer makes room, and the retry in %s recurses "
+                     "without progress until the native stack overflows" % (short_path(grow), capped[0][:100], short_path(owner)), [g.span])
+        else:
+            rep.ok(rule, key, "%s resizes unconditionally to an uncapped larger length" % short_path(grow), [g.span])
+
+
 MATERIALISERS = {
     # function -> why it may turn run-time data into a (natively recursive) datum on a success path
     "marwood::vm::heap::Heap::get_as_cell": "the conversion itself (its own recursion is an R19a entry)",
@@ -313,5 +380,7 @@ def run(ctx, rep):
     r19e(ctx, rep)
     r19f(ctx, rep)
     r19g(ctx, rep)
+    r19h(ctx, rep)
+    r19i(ctx, rep)
     rep.not_decided += ["actual frame sizes and the depth at which the abort happens",
                         "recursion hidden inside external crates (num, std)"]
